@@ -634,7 +634,9 @@ def r5f_walk_bounds(ctx):
             for b, s2, kind in exits:
                 if kind == "parent-none":
                     continue
-                if _skip_trivial(f, s2) in fall:
+                # a way out that ends up in the code after the loop (directly, or after a log line / a clean-up): a `break`.
+                # A `return` from inside the loop never gets there.
+                if _skip_trivial(f, s2) in fall or any(_reach(f, s2, fb, body) for fb in fall):
                     extra.append(crate.span_str(_span_of_block(f, b)))
             if extra:
                 r.violate(key + "|extra-break", "the conftest walk in %s can also be left at %s into the code after the loop: the walk is "
@@ -643,6 +645,19 @@ def r5f_walk_bounds(ctx):
                 r.ok(sample={"walk_in": f.id, "exits": len(exits), "end_of_path_exits": len(pn)})
     r.floor("conftest walks", n, 2)
     return r
+
+
+def _reach(f, a, b, avoid):
+    seen, st = {a}, [a]
+    while st:
+        x = st.pop()
+        if x == b:
+            return True
+        for s2 in f.succs(x):
+            if s2 not in seen and s2 not in avoid:
+                seen.add(s2)
+                st.append(s2)
+    return False
 
 
 def _parent_steps(f, d, limit=60):
@@ -1202,4 +1217,58 @@ def r5k_single_source(ctx):
         else:
             r.ok(sample={"import_predicate": f.id.split("::")[-1]})
     r.floor("predicates over the import closure", m, 1)
+    return r
+
+
+# ------------------------------------------------------------------------------------------ R5m: an upward step advances
+def r5m_upward_step_advances(ctx):
+    r = Result("R5m", "inside a loop, a directory variable that is overwritten with the parent() of something is overwritten with the "
+                      "parent of ITSELF: `for _ in 1..level { dir = base.parent()? }` steps from the loop-invariant `base` every "
+                      "time, so three or more levels go up only one directory (relative imports with three dots, conftest "
+                      "walks)")
+    from .r1e import natural_loops, _root
+    crate = ctx.bin
+    n = 0
+    for f in crate.real_fns():
+        if not any(re.search(r"path::Path::parent$", c.get("res") or "") for _b, c in f.calls()):
+            continue
+        for h, latches, body in natural_loops(f):
+            for b in sorted(body):
+                t = f.blocks[b]["t"]
+                if t[0] != "call" or not re.search(r"path::Path::parent$", t[1].get("res") or "") or not t[1]["args"]:
+                    continue
+                # innermost loop only
+                if any(set(b2) < body and b in b2 for _h2, _l2, b2 in natural_loops(f) if b2 != body):
+                    continue
+                src = _root(f, t[1]["args"][0])
+                if src is None:
+                    continue
+                # where does the payload go?  locals assigned inside the loop from the parent() result (through payloads,
+                # to_path_buf, reborrows) that are also live across iterations (defined outside the loop too)
+                res = {place_local(t[1]["dest"])}
+                for _ in range(5):
+                    for bb2, si, pl, rv, sp in f.assigns():
+                        if bb2 not in body:
+                            continue
+                        s0 = place_local(op_place(rv[1])) if rv[0] == "use" and op_place(rv[1]) is not None else \
+                            place_local(rv[2]) if rv[0] == "ref" else None
+                        if s0 in res and place_local(pl) is not None:
+                            res.add(place_local(pl))
+                    for bb2, c2 in f.calls():
+                        if bb2 in body and c2["args"] and op_local(c2["args"][0]) in res and \
+                                re.search(r"to_path_buf$|to_owned$|Try>?::branch$|::clone$|::into$|Deref>?::deref$", c2.get("res") or c2.get("fn") or ""):
+                            res.add(place_local(c2["dest"]))
+                carried = [v for v in res if any(d[1] not in body for d in f.whole_defs(v)) and any(d[1] in body for d in f.whole_defs(v))]
+                if not carried:
+                    continue
+                n += 1
+                key = "R5m|%s|parent() of a loop-invariant value" % f.id
+                src_defs_in_loop = any(d[1] in body for d in f.whole_defs(src) if d[0] != "arg")
+                if src in carried or src_defs_in_loop or any(_root(f, ["cp", v]) == src for v in carried):
+                    r.ok(sample={"loop_in": f.id.split("::")[-1], "steps_from": "the loop-carried directory"} if len(r.samples) < 4 else None)
+                else:
+                    r.violate(key, "%s overwrites `%s` in a loop with parent() of `%s`, which the loop never changes (at %s): every "
+                                   "iteration yields the same directory" % (f.id, f.local_name(carried[0]) or "_", f.local_name(src) or "_",
+                                                                           crate.span_str(t[1]["span"])))
+    r.floor("upward steps inside loops", n, 2)
     return r
